@@ -265,3 +265,25 @@ def ebv_with_nodes(x: int) -> bool:
     from harness.common import L
     return run('atom_node') == 'FORG0006' and run('and') == 'FORG0006' and run('not') == 'FORG0006' and run('if') == 'FORG0006' \
         and run('pred') == 'FORG0006' and run('node_atom') == [True] and run('node_only') == [True] and run('empty_path') == [False]
+
+
+# --- added after round-2 seeded changes: date/time ordering when only one operand has a timezone (implicit UTC) -------------------
+
+import datetime as _dtm  # noqa: E402
+from elementpath.datatypes import DateTime as _DateTime, Timezone as _Timezone  # noqa: E402
+OFFS = (-840, -300, -60, 0, 60, 330, 840)
+
+
+@ob(budget=60, tbudget=600, kind='hunt', bound='two xs:dateTime values on 2000-01-01, hours symbolic, one with a timezone offset from 7 values chosen by the solver and one without: converse laws and instant order with implicit UTC (datetime model: bug-hunting)',
+    funcs=['elementpath/datatypes/datetime.py:AbstractDateTime._compare'])
+def datetime_one_sided_timezone(h1: int, h2: int, oi: int) -> bool:
+    """
+    pre: 0 <= h1 <= 23 and 0 <= h2 <= 23 and 0 <= oi <= 6
+    post: _
+    """
+    off = OFFS[oi]
+    a = _DateTime(2000, 1, 1, h1)                                   # no timezone: implicit UTC
+    b = _DateTime(2000, 1, 1, h2, tzinfo=_Timezone(_dtm.timedelta(minutes=off)))
+    ia, ib = h1 * 60, h2 * 60 - off                                  # instants in minutes, UTC
+    return _val('lt', a, b) == (ia < ib) and _val('gt', b, a) == (ia < ib) and _val('eq', a, b) == (ia == ib) \
+        and _val('eq', b, a) == (ia == ib) and _val('ge', a, b) == (ia >= ib) and _val('le', b, a) == (ia >= ib)
